@@ -11,7 +11,7 @@ def check(repo, rep, tier):
                        '(directly or through a memo all of whose entries are fresh), or a Functor rebuilt from recursive copies '
                        '(greatest fix-point). What assert stores in a fact, and what a use of the fact hands to unification, must '
                        'both come out of such a copy with one memo per fact. That the copy equals the dereferenced original is C15.')
-    fr = rs.rule_store_snapshot(em, rep, 'C13.S1')
-    rs.rule_fresh_per_use(em, rep, 'C13.S2', fr)
-    rs.rule_copier_derefs(em, rep, 'C13.S3', fr)
-    rx.rule_facts_immutable(em, rep, 'C13.S4')
+    fr = rep.run(rs.rule_store_snapshot, em, rep, 'C13.S1')
+    rep.run(rs.rule_fresh_per_use, em, rep, 'C13.S2', fr)
+    rep.run(rs.rule_copier_derefs, em, rep, 'C13.S3', fr)
+    rep.run(rx.rule_facts_immutable, em, rep, 'C13.S4')
